@@ -99,7 +99,37 @@ Proof.
   repeat split; try apply sqrt_pos; try apply (mod2pi_range L Hpi Hfm);
     try apply acos2_range; try lra.
 Qed.
+(* T and M of a returned orbit:  (t0 - T) |n| = M  modulo 2pi  (t0 = the particle's simulation time) *)
+Lemma orbit_T_relation : forall tiny G t0 p prim o,
+  orbit_from_particle_err RNum L L2 tiny G t0 p prim = inr o -> o_n o <> 0 ->
+  exists k : Z, (t0 - o_T o) * Rabs (o_n o) = o_M o + IZR k * (2 * l_pi L).
+Proof.
+  intros tiny G t0 p prim o H Hn. unfold orbit_from_particle_err in H.
+  destruct (nleb RNum (pm prim) tiny); [discriminate|].
+  cbv zeta in H.
+  match type of H with (if ?c then _ else _) = _ => destruct c; [discriminate|] end.
+  match type of H with context [match ?X with pair _ _ => _ end] => destruct X as [[[om pom] ff] th] end.
+  injection H as <-. cbn [o_T o_M o_n] in *. cbn [nsub ndiv nabs RNum] in *.
+  match goal with |- context [mod2pi RNum L ?X] =>
+    destruct (mod2pi_range L Hpi Hfm X) as [_ [k Hk]]; exists k; rewrite Hk; set (MM := X) in * end.
+  match goal with |- context [Rabs ?n] => set (NN := Rabs n) in *; assert (NN <> 0) by (apply Rabs_no_R0; exact Hn) end.
+  field. assumption.
+Qed.
+
+Lemma orbit_sim_clock : forall tiny G t primsim p prim,
+  orbit_from_particle_sim RNum L L2 tiny G (Some t) primsim p prim = orbit_from_particle_err RNum L L2 tiny G t p prim /\
+  orbit_from_particle_sim RNum L L2 tiny G None primsim p prim = orbit_from_particle_err RNum L L2 tiny G 0 p prim.
+Proof. intros. split; reflexivity. Qed.
+
 End Ranges.
+
+(* T -> M -> T: a particle created with pericentre time T at simulation time t gets M = n (t - T) (Flow.v, AnT);
+   if the orbit read back at the same t has the same |n| and that mean anomaly up to whole turns, the T read back
+   is T up to whole periods *)
+Lemma T_roundtrip_mod_period : forall t Tp n (k : Z), 0 < n ->
+  t - (n * (t - Tp) + IZR k * (2 * PI)) / Rabs n = Tp - IZR k * (2 * PI / n).
+Proof. intros. rewrite (Rabs_pos_eq n) by lra. field. lra. Qed.
+
 
 (* the Coq Reals functions meet the hypotheses *)
 Lemma real_libm_sane : 0 < PI /\ fmod_spec fmodR /\ (forall x, 0 <= acos x <= PI).
